@@ -291,6 +291,9 @@ type inlineState struct {
 
 func (state *inlineState) spanEnd() int {
 	if state.unparsedPos >= len(state.unparsed) {
+		if n := len(state.unparsed); n > 0 {
+			return state.unparsed[n-1].Span().End
+		}
 		return len(state.source)
 	}
 	return state.unparsed[state.unparsedPos].Span().End
